@@ -252,6 +252,27 @@ func runC17(args []string) error {
 				}
 			}
 		}
+		if cfg.Prior == "staleother" {
+			// an earlier run protected inputs that differed only BEYOND the first 16 KiB of one file (same names,
+			// same lengths, same file ids): nothing it left behind may find its way into what Create writes now
+			var victim string
+			for _, n := range st.names {
+				if len(st.data[n]) > 16384+100 && victim == "" {
+					victim = n
+				}
+			}
+			if victim != "" {
+				d := append([]byte{}, st.data[victim]...)
+				d[16384+77] ^= 0x5a
+				d[len(d)-1] ^= 0x01
+				sandbox.WriteFile(filepath.Join(setdir, filepath.FromSlash(victim)), d)
+			}
+			doCreate()
+			errText = ""
+			if victim != "" {
+				sandbox.WriteFile(filepath.Join(setdir, filepath.FromSlash(victim)), st.data[victim])
+			}
+		}
 		before, _ := sandbox.Take(root)
 		doCreate()
 		after, _ := sandbox.Take(root)
@@ -276,7 +297,7 @@ func runC17(args []string) error {
 				if e, ok := after[p]; ok && e.IsDir {
 					continue
 				}
-				if _, still := after[p]; still && cfg.Prior == "stale" && strings.HasPrefix(p, prefix) && strings.HasPrefix(filepath.Base(p), "out.") {
+				if _, still := after[p]; still && cfg.Prior != "fresh" && strings.HasPrefix(p, prefix) && strings.HasPrefix(filepath.Base(p), "out.") {
 					b, _ := ioutil.ReadFile(filepath.Join(root, p))
 					h := sha256.Sum256(b)
 					digests[filepath.ToSlash(strings.TrimPrefix(p, prefix))] = hex.EncodeToString(h[:8]) + fmt.Sprintf(":%d", len(b))
